@@ -65,8 +65,12 @@ type Req struct {
 	// UsePool: the call's options are Session.Pool[:PoolN], spread from a slice of the session's
 	// shared backing array (capacity > length). The other fields spell out what these options mean
 	// for this method, i.e. what the request must carry.
-	UsePool bool `json:"use_pool,omitempty"`
-	PoolN   int  `json:"pool_n,omitempty"`
+	// SetForce / SetHeader: before this call the harness assigns the exported fields
+	// Driver.ForceSelfClosingTags = *SetForce / Driver.ExcludeHeader = !*SetHeader on the open driver.
+	SetForce  *bool `json:"set_force,omitempty"`
+	SetHeader *bool `json:"set_header,omitempty"`
+	UsePool   bool  `json:"use_pool,omitempty"`
+	PoolN     int   `json:"pool_n,omitempty"`
 }
 
 // OptSpec is one operation option of a session's shared option array.
@@ -78,7 +82,7 @@ type OptSpec struct {
 
 // Session is a case descriptor: one NETCONF session of N consecutive requests on one stream.
 type Session struct {
-	Kind    string `json:"kind"`    // grid | random | sweep | big | hazard | noanswer | caps | stall | alias | log (how it was generated)
+	Kind    string `json:"kind"`    // grid | random | sweep | big | hazard | noanswer | caps | stall | alias | log | flip (how it was generated)
 	Version string `json:"version"` // 1.0 | 1.1
 	Via     string `json:"via"`     // caps: server offers only that version; preferred: server offers both, client option selects
 	Force   bool   `json:"force"`   // options.WithNetconfForceSelfClosingTags
